@@ -70,6 +70,22 @@ var props = map[string]PropMeta{
 		Real: ship1Real, Stub: ship1Stub,
 		QuickS: 20, ThoroughS: 360, QuickWorkers: 6,
 	},
+	"C03": {
+		Level: "exploration",
+		Rule: "one run = a client-role and a server-role ShipConnection on real ws + gorilla over a simulated TCP pair x server trust (paired / auto-accept / user approves, cancels or revokes waiting after 0..200 simulated s of pending / waiting not allowed / never answers) x stored SHIP ids per side (unknown, correct, wrong) x mode: timely (fixed latency 0..400 ms, clock advances only when nothing else can happen) or arbitrary (per-chunk latency from {0, 5 ms, 1 s, 9.9 s, 10.1 s, 31 s, 61 s, 130 s}, so any timer may expire with messages in flight) x seeded interleaving of both read pumps, write pumps, timers and the user task; state is judged 20 simulated minutes after the user's decision; " +
+			"non-trivial = timely runs, and arbitrary runs that ended or completed; distinct = distinct (mode, trust, ids, delay, outcome A, outcome B) tuples",
+		Real:   []string{"ship.ShipConnection x2 (client + server role)", "ws.WebsocketConnection x2", "gorilla/websocket x2 incl. the opening handshake"},
+		Stub:   []string{"TCP (simnet.Conn pair with drawn latencies)", "info providers / hub (trust configuration, records callbacks)", "user (approve / cancel / revoke task)"},
+		QuickS: 25, ThoroughS: 480, QuickWorkers: 6,
+	},
+	"C06": {
+		Level: "exploration",
+		Rule: "(pair) two real endpoints over ws + simulated TCP (latency 0..2.8 s, optional jitter), server trust paired/auto/approved later; each application sends 0-3 datagrams from inside its SetupRemoteDevice callback (i.e. possibly before the peer has completed) and 0-26 later from a sender task, unique ids; optionally the link ends (graceful close by either side, unsafe close, reset) at a drawn moment; (scripted) one real endpoint and a scripted peer that injects datagrams at every handshake position (45% of up to 36 peer events); oracle per direction: delivered sequence = sent sequence (exact if the link stayed open, duplicate-free gap-free prefix otherwise), nothing before SetupRemoteDevice returned / before completion; " +
+			"non-trivial = the handshake completed; distinct = distinct (engine, configuration, per-direction delivered/sent counts) tuples",
+		Real:   []string{"ship.ShipConnection (x2 in pair mode)", "ws.WebsocketConnection + gorilla/websocket (pair mode)", "EEBUS JSON transform (payloads stay inside the alphabet on which it is faithful; C07 is not claimed)"},
+		Stub:   []string{"TCP (simnet)", "info providers", "applications (recording readers, scripted senders)", "scripted peer (scripted mode)"},
+		QuickS: 25, ThoroughS: 420, QuickWorkers: 6,
+	},
 	"C01": {
 		Level: "exploration",
 		Rule: "one run = role x trust configuration (paired/auto/none, waiting allowed or not) x peer hello mode x user plan (approve/cancel/revoke at a drawn event) x up to 32 peer events drawn from {cooperative next frame, deviant frame of 12 classes, SPINE data, clock advance 1ms..120s, transport error, close announce} x seeded interleaving of pump, user and timer tasks; " +
